@@ -5,6 +5,7 @@
    the code as it stands (DESIGN.md section 8), about which the two ..._refuted theorems
    speak.  The correspondence (./check C16) reports which of the two the tree shows. *)
 From Biscuit Require Import Model.Schema Proofs.SchemaProofs.
+From Biscuit Require Model.BlockWire Model.Convert Proofs.ConvertProofs.
 Local Open Scope N_scope.
 
 (* ---- the builders ------------------------------------------------------------------ *)
@@ -176,4 +177,49 @@ Example C16_ex_sigversion :
   token_sigversions AEd25519 [mksblock AEd25519 BkBuilder 6; mksblock AEd25519 BkBuilder 3] = [1; 1] /\
   token_sigversions AEd25519 [mksblock AEd25519 BkBuilder 3; mksblock AEd25519 BkRaw 6] = [0; 0] /\
   needs_v1 AEd25519 (mksblock ASecp256r1 BkBuilder 3) = true.
+Proof. vm_compute. repeat split; reflexivity. Qed.
+
+(* ---- the gate over the decoded protobuf structure ------------------------------------------
+   [Convert.conv_block canon p ext] is proto_block_to_token_block on what prost decodes
+   (Model/Convert.v over Model/BlockWire.v): the same gate, but reached through the real shapes
+   -- optional version field, check kinds as raw enum numbers, scopes and terms as oneofs --
+   and the real order of the refusals.  [ConvertProofs.shape_block b] is the content of the
+   accepted block as the feature table reads it (strings are symbol ids at this stage). *)
+Theorem C16_wire_gate_sound :
+  forall (canon : Z -> Bytes.bytes -> option Bytes.bytes) (p : BlockWire.pblock) (ext : bool) (b : Convert.iblock),
+    Convert.conv_block canon p ext = Convert.COk b ->
+    3 <= Convert.ib_version b <= 6 /\ Convert.ib_external b = ext /\
+    (ext = true -> 5 <= Convert.ib_version b) /\
+    required (ConvertProofs.shape_block b) <= Convert.ib_version b.
+Proof. exact ConvertProofs.conv_gate_sound. Qed.
+Print Assumptions C16_wire_gate_sound.
+
+(* an absent version field reads as 0: out of range like every version below 3 or above 6 *)
+Theorem C16_wire_out_of_range :
+  forall (canon : Z -> Bytes.bytes -> option Bytes.bytes) (p : BlockWire.pblock) (ext : bool),
+    (let v := match BlockWire.pb_version p with Some v => v | None => 0 end in v < 3 \/ 6 < v) ->
+    Convert.conv_block canon p ext = Convert.CErr Convert.CVersion.
+Proof. exact ConvertProofs.conv_out_of_range. Qed.
+Print Assumptions C16_wire_out_of_range.
+
+(* non-vacuity, from bytes: `check all` declared 3.1 is accepted first-party and refused
+   third-party; declared 3.0 it is refused; a fact holding an array declared 3.2 is refused *)
+Definition ex_pcheck_all (v : N) : BlockWire.pblock :=
+  BlockWire.mkpblock [] None (Some v) [] []
+    [BlockWire.mkpcheck [BlockWire.mkprule (BlockWire.mkppred 27 []) [BlockWire.mkppred 1024 [BlockWire.PTVariable 0]] [] []] (Some 1%Z)]
+    [] [].
+Definition ex_parray (v : N) : BlockWire.pblock :=
+  BlockWire.mkpblock [] None (Some v) [BlockWire.mkppred 1024 [BlockWire.PTArray [BlockWire.PTInteger 1%Z]]] [] [] [] [].
+Definition ex_anykey : Z -> Bytes.bytes -> option Bytes.bytes := fun _ k => Some k.
+Definition conv_bytes (p : BlockWire.pblock) (ext : bool) : option Convert.cres :=
+  option_map (fun q => Convert.conv_block ex_anykey q ext) (BlockWire.decode_block (BlockWire.encode_block p)).
+Definition is_ok (r : option Convert.cres) : bool := match r with Some (Convert.COk _) => true | _ => false end.
+Example C16_ex_wire_gate :
+  is_ok (conv_bytes (ex_pcheck_all 4) false) = true /\
+  conv_bytes (ex_pcheck_all 4) true = Some (Convert.CErr Convert.CDeser) /\
+  conv_bytes (ex_pcheck_all 3) false = Some (Convert.CErr Convert.CDeser) /\
+  is_ok (conv_bytes (ex_pcheck_all 5) true) = true /\
+  conv_bytes (ex_parray 5) false = Some (Convert.CErr Convert.CDeser) /\
+  is_ok (conv_bytes (ex_parray 6) false) = true /\
+  conv_bytes (ex_parray 7) false = Some (Convert.CErr Convert.CVersion).
 Proof. vm_compute. repeat split; reflexivity. Qed.
